@@ -1,6 +1,9 @@
 import CJ.Drv.Loop
-/-! Driver for C05 (stub until the models are written). -/
+import CJ.Drv.HalfPipe
+/-! Driver for C05: the relay model (`halfPipe`, `Proxy`). -/
 open CJ.Drv
 
 def main : IO Unit := runDriver fun
+  | "halfpipe" :: args => HalfPipe.handle args
+  | "proxy" :: args => HalfPipe.handleProxy args
   | _ => none
